@@ -282,10 +282,18 @@ pub fn replay(args: &[String]) {
                 let notifies = r.out.iter().filter(|e| **e == Entry::Notify).count();
                 if let Some(Entry::Malformed(m)) = r.out.iter().find(|e| matches!(e, Entry::Malformed(_))) {
                     s.violation("out:malformed", format!("server output is not a sequence of whole responses: {m}"), c.clone());
-                } else if !closes && got != want {
-                    s.violation("out:answers", format!("responses {got:?}, specification {want:?} (script {script:?})"), c.clone());
-                } else if closes && (got.len() > want.len() || got[..] != want[..got.len()]) {
-                    s.violation("out:answers", format!("responses {got:?} are not a prefix of {want:?}"), c.clone());
+                } else {
+                    // the statement asks for "an Error PDU" for malformed / unsupported queries; which error code it carries is
+                    // RFC 8210 detail beyond the statement, so a differing code is a beyond-property note
+                    let blur = |v: &[Entry]| -> Vec<Entry> { v.iter().map(|e| if let Entry::Err(_, _) = e { Entry::Err(0, 0) } else { e.clone() }).collect() };
+                    let (g, w) = (blur(&got), blur(&want));
+                    if !closes && g != w {
+                        s.violation("out:answers", format!("responses {got:?}, specification {want:?} (script {script:?})"), c.clone());
+                    } else if closes && (g.len() > w.len() || g[..] != w[..g.len()]) {
+                        s.violation("out:answers", format!("responses {got:?} are not a prefix of {want:?}"), c.clone());
+                    } else if (!closes && got != want) || (closes && got[..] != want[..got.len()]) {
+                        s.violation("beyond:out:error-code", format!("responses {got:?}, specification {want:?}: same shape, different error PDU version/code"), c.clone());
+                    }
                 }
                 // A notification issued while the connection is open and its version is known (a data response has been written)
                 // must show up as a Serial Notify once the server is idle; a burst may collapse into one, never into none.
